@@ -405,7 +405,7 @@ func TestVerifC17(t *testing.T) {
 	}
 	r.Expect("class:ValCount.smaller:extreme-tied-across-partials", "class:ValCount.larger:extreme-tied-across-partials", "partials:2", "partials:5")
 
-	n := r.N(4000, 700000)
+	n := r.N(4000, 160000)
 	r.Cases("fold", n, func(i int, id string, rng *vk.Rand) {
 		rd := rds[rng.Intn(len(rds))]
 		k := 2 + rng.Intn(4)
